@@ -44,8 +44,10 @@ def rich_frame(rng, n=24):
 
 
 def _cover(rng, values, n):
-    """n draws covering every value at least once."""
+    """n draws covering every value at least twice when n allows (once otherwise): with a single observation of a level its
+    indicator and its product with a numeric column are proportional, which is a property of the data, not of the coding."""
     vals = list(values)
+    vals = vals * 2 if n >= 2 * len(vals) else vals
     out = vals + [vals[i] for i in rng.integers(0, len(vals), size=max(0, n - len(vals)))]
     out = out[:n]
     idx = rng.permutation(n)
